@@ -20,6 +20,7 @@ type c01Args struct {
 	ReadSeed   int64       `json:"read_seed"`
 	YieldSeed  uint64      `json:"yield_seed"`
 	ReadsFirst int         `json:"reads_first"`
+	LateReader bool        `json:"late_reader,omitempty"`
 }
 
 type c01Chunk struct {
@@ -80,7 +81,7 @@ func init() {
 	register(&Property{
 		ID:    "C01",
 		Level: "exploration",
-		Rule: "API histories on a real streams.Stdin: 1-6 writer goroutines (some opened late by a running writer, as createProcess does) each issue a PRNG sequence of Write calls of self-describing chunks [magic][writer][seq][len][payload(writer,seq)] with sizes from 0 to 3 MiB across the 1 MiB back-pressure limit and payload bytes over 0..255, then Close; one reader drains with Read (random buffer sizes) / WriteTo / ReadAll / Read then ReadAll while a sampler polls Stats and the buffer state; hook yields perturb the check-then-act windows of Read/Write/ReadAll; plus byte strings pushed through a murex pipeline of byte-preserving builtins; " +
+		Rule: "API histories on a real streams.Stdin: 1-6 writer goroutines (some opened late by a running writer, as createProcess does) each issue a PRNG sequence of Write calls of self-describing chunks [magic][writer][seq][len][payload(writer,seq)] with sizes from 0 to 3 MiB across the 1 MiB back-pressure limit and payload bytes over 0..255, then Close; one reader drains with Read (random buffer sizes) / WriteTo / ReadAll / Read then ReadAll (in a quarter of the histories the reader starts late, once the pipe is full and a writer is parked on the back-pressure limit) while a sampler polls Stats and the buffer state; hook yields perturb the check-then-act windows of Read/Write/ReadAll; plus byte strings pushed through a murex pipeline of byte-preserving builtins; " +
 			"oracle (offline over the recorded history): every chunk whole, in per-writer sequence order, exactly once, payload intact; Write returns len(p), nil; the reader's EOF comes after every writer's Close call; counters monotone, read <= written, exact at quiescence; buffered < limit + largest chunk of every writer while the limit is in force; every history finishes; non-trivial = >= 2 writers or a write across 1 MiB; distinct by history description",
 		Assumptions: []string{"ForceClose / cancelled contexts legitimately drop data and are not generated", "ReadAll is a non-consuming snapshot: at most one terminal ReadAll per stream", "the framing parser runs in the worker (harness code) because histories move up to tens of MiB; its verdict records are checked in the controller"},
 		Technique:   "runtime monitoring: recorded producer/consumer history with unique self-describing chunks, offline exactly-once/order/conservation checker, hook-injected yields",
@@ -96,6 +97,9 @@ func init() {
 					nw = 1 + r.Intn(3)
 				}
 				a := c01Args{Reader: []string{"read", "writeto", "readall", "read-then-readall"}[i%4], ReadSeed: r.Int63(), YieldSeed: uint64(r.Int63()) | 1, ReadsFirst: 1 + r.Intn(6)}
+				// in a quarter of the histories the reader starts late: only when the pipe is full
+				// and a writer is parked on the limit (or every writer is done)
+				a.LateReader = i%8 >= 6 // readers "readall" and "read-then-readall"
 				budget := 4 << 20
 				for w := 0; w < nw; w++ {
 					wr := c01Writer{OpenedBy: -1}
@@ -109,6 +113,12 @@ func init() {
 						}
 						budget -= s
 						wr.Sizes = append(wr.Sizes, s)
+					}
+					if a.LateReader && w == 0 {
+						// enough volume, in many writes, to fill the pipe while nobody reads
+						for k := 0; k < 30; k++ {
+							wr.Sizes = append(wr.Sizes, 50000+r.Intn(20000))
+						}
 					}
 					a.Writers = append(a.Writers, wr)
 				}
